@@ -273,6 +273,26 @@ func runC16(seed int64, n int, dir string, tier string) *Report {
 			}
 			checkFilter(rep, nl, gotR, func(m *sbom.Node) bool { return roots[m.Id] }, "GetRootNodes", map[string]any{})
 		}
+		// roots again, on a copy whose root entries are reversed and whose first entry is repeated: root
+		// membership is a set criterion, so every root node is returned once, in list order (no PRNG draws here)
+		if len(nl.RootElements) > 0 {
+			nr := clone(nl)
+			rs := append([]string{}, nl.RootElements...)
+			for a, b := 0, len(rs)-1; a < b; a, b = a+1, b-1 {
+				rs[a], rs[b] = rs[b], rs[a]
+			}
+			nr.RootElements = append(rs, rs[0], nl.RootElements[0])
+			gotRR := nr.GetRootNodes()
+			add(nr, "QRoots", "(ANodes "+coqNodes(gotRR)+")", map[string]any{"query": "GetRootNodes", "roots": "reversed, repeated"})
+			if unique {
+				rep.OracleEvals++
+				roots := map[string]bool{}
+				for _, r := range nr.RootElements {
+					roots[r] = true
+				}
+				checkFilter(rep, nr, gotRR, func(m *sbom.Node) bool { return roots[m.Id] }, "GetRootNodes", map[string]any{"roots": "reversed, repeated"})
+			}
+		}
 		// purl type
 		pt := gen.Pick(g, []string{"npm", "golang", "none", "go", "git", "gen", "n", "", "github", "generic"})
 		gotP := clone(nl).GetNodesByPurlType(pt)
